@@ -133,7 +133,9 @@ class SeqRun(object):
 
     def do(self, op):
         w = self.world
-        self.sim.advance(self.rng.choice([0, 1, 1, 5, 3600]))
+        # clock: small steps, an hour forward, and the occasional jump
+        # backwards (NTP step); no listed property may depend on it
+        self.sim.advance(self.rng.choice([0, 1, 1, 5, 3600, -7200]))
         t = self.sim.run_inline(lambda: w.request(
             op['m'], op['p'], op.get('b'), op.get('v'), op.get('h')))
         return t.result
@@ -153,6 +155,11 @@ class SeqRun(object):
         self.stats['by_kind'][k] = self.stats['by_kind'].get(k, 0) + 1
         self.stats['by_status'][resp.status] = \
             self.stats['by_status'].get(resp.status, 0) + 1
+        if op.get('defect'):
+            dk = 'defect_%s_%s' % (k, op['defect'])
+            self.stats.setdefault('by_defect', {})
+            self.stats['by_defect'][dk] = \
+                self.stats['by_defect'].get(dk, 0) + 1
         rbrief = resp.brief()
         self.history.append((workload.op_brief(op), resp.status))
         after_raw = dump.raw(self.world)
